@@ -1,18 +1,18 @@
 import PyYetiVerif.Lemmas.Op4Fixed
 import PyYetiVerif.Lemmas.Op4FixedFile
 import PyYetiVerif.Lemmas.Op4FixedDomain
-import PyYetiVerif.Lemmas.Op4FixedAscii
-import PyYetiVerif.Lemmas.Op4FixedChainC
 import PyYetiVerif.Props.C04
 /-!
-# C04 — the repair candidates for findings F2 and F3 (`…_fixed` theorems)
+# C04 — the binary nonbigmat writer with `_split_strings` (finding F2, repaired in /repo by 27f7d6b)
 
-/repo is NOT patched: `Props/C04.lean` keeps describing the code that exists (with `pack_fits_i32` /
-`nonbigmat_overflow_example` and `fmtE_width` / `ascii_overflow_example` as the boundaries of F2 / F3).  This file
-states, next to those theorems, what the PATCHED writers do (model: `Model/Op4Fixed.lean`; patches:
-`corpus/c04_F2_candidate_fix.diff`, `corpus/c04_F3_candidate_fix.diff`; tie of the patched text to the model:
-`corpus/c04_F2_candidate_check.py`, `corpus/c04_F3_candidate_check.py` with the evidence files next to them) and
-proves the property for them with the hypothesis / counterexample that encoded the defect dropped.
+The writer that exists is `encMatWordsFx` / `encFileWordsFx` / `writeFileWordsFx` (Model/Op4Fixed.lean): the binary
+nonbigmat layout passes the runs of `_sparse_col_stats` through `OP4._split_strings(ind, 16383 // multiplier)`, so every
+packed string header fits `struct.pack('i', …)`.  The theorems of this file are the whole-file statements for it (words,
+true domain, bytes): no hypothesis on string lengths.  `encMatWords` of Model/Op4.lean is the encoder WITHOUT the split —
+`writer_eq_unsplit` / `file_writer_eq_unsplit`: the writer is that encoder whenever no string is longer than
+`16383 // multiplier` rows — and the theorems of Props/C04.lean that are stated for `encMatWords` (sparse inputs, COO view,
+argument normalisation, `sparse=None` rule) hold for the writer on that sub-domain through this identity.
+The ASCII half (finding F3, fix 7ee1407) is swapped in place: `fmtE` of Model/Op4.lean is `numform(value)`.
 -/
 namespace PyYetiVerif.C04
 open PyYetiVerif.Op4 PyYetiVerif.Op4A PyYetiVerif.Generated.Op4Consts
@@ -184,6 +184,55 @@ example :
       (encFileWordsFx .big [(.nonbigmat, m1), (.bigmat, m2)]).isSome = true := by
   decide
 
+theorem encCols_congr_mem (f g : Nat → List Entry → List Nat) :
+    ∀ (cols : List (List Entry)) (c : Nat), (∀ col ∈ cols, ∀ c, f c col = g c col) → encCols f c cols = encCols g c cols := by
+  intro cols
+  induction cols with
+  | nil => intro c _; rfl
+  | cons col t ih =>
+    intro c h
+    simp only [encCols]
+    rw [h col List.mem_cons_self c, ih (c + 1) fun x hx => h x (List.mem_cons_of_mem _ hx)]
+
+theorem all_congr_mem {α} (p q : α → Bool) : ∀ (l : List α), (∀ x ∈ l, p x = q x) → l.all p = l.all q := by
+  intro l
+  induction l with
+  | nil => intro _; rfl
+  | cons a t ih =>
+    intro h
+    simp only [List.all_cons]
+    rw [h a List.mem_cons_self, ih fun x hx => h x (List.mem_cons_of_mem _ hx)]
+
+/-- **the writer is the unsplit encoder where no string is long**: if no run of non-zero rows of the matrix is longer
+than `16383 // multiplier`, the words the writer produces are those of `encMatWords` (the encoder the theorems of
+Props/C04.lean are stated for), in every layout -/
+theorem writer_eq_unsplit (e : Endian) (lay : Layout) (m : Mat)
+    (h : ∀ col ∈ m.cols, ∀ p ∈ colStats (nzIdx m.cplx col), p.2 ≤ maxStrRows m.cplx) :
+    encMatWordsFx e lay m = encMatWords e lay m := by
+  cases lay
+  · rfl
+  · rfl
+  · have hs : ∀ col ∈ m.cols, stringsFx m.cplx col = strings m.cplx col :=
+      fun col hc => stringsFx_eq_strings m.cplx col (h col hc)
+    have h1 : m.cols.all (stringsFitFx m.cplx) = m.cols.all (stringsFit m.cplx) :=
+      all_congr_mem _ _ m.cols fun col hc => by unfold stringsFitFx stringsFit; rw [hs col hc]
+    have h2 : encCols (encColNonbigFx e m.cplx) 0 m.cols = encCols (encColNonbig e m.cplx) 0 m.cols :=
+      encCols_congr_mem _ _ m.cols 0 fun col hc c => (nonbigmat_unchanged_fixed m.cplx col (h col hc)).2 e c
+    simp only [encMatWordsFx, encMatWords, h1, h2]
+
+theorem file_writer_eq_unsplit (e : Endian) :
+    ∀ (ms : List (Layout × Mat)),
+      (∀ q ∈ ms, ∀ col ∈ q.2.cols, ∀ p ∈ colStats (nzIdx q.2.cplx col), p.2 ≤ maxStrRows q.2.cplx) →
+      encFileWordsFx e ms = encFileWords e ms := by
+  intro ms
+  induction ms with
+  | nil => intro _; rfl
+  | cons q t ih =>
+    intro h
+    obtain ⟨lay, m⟩ := q
+    simp only [encFileWordsFx, encFileWords]
+    rw [writer_eq_unsplit e lay m (h (lay, m) List.mem_cons_self), ih fun x hx => h x (List.mem_cons_of_mem _ hx)]
+
 /-- non-vacuity, F2: the 16384-row real string of `nonbigmat_overflow_example` is written as strings of 16383 and 1
 rows whose headers fit; a 20000-row complex string as 8191 + 8191 + 3618 -/
 example :
@@ -192,117 +241,5 @@ example :
       splitStrings (maxStrRows true) [(3, 20000), (30000, 2)] = [(3, 8191), (8194, 8191), (16385, 3618), (30000, 2)] ∧
       splitStrings 3 [(0, 2), (5, 3)] = [(0, 2), (5, 3)] ∧ splitStrings 3 [(0, 7)] = [(0, 3), (3, 3), (6, 1)] := by
   decide
-
-/-! ## F3: every value in its field -/
-
-/-- **F3 repaired** (`fmtE_width` without its exception): `numform(x)` of the patched `_write_ascii_header` is
-exactly `digits + 7` characters wide for EVERY finite double — also a negative one with a three-digit exponent — and
-for a value that fitted before (`Fits`) it is the present text `fmtE`. -/
-theorem fmtE_width_fixed (d b : Nat) (hd : 1 ≤ d) :
-    (fmtEFx d b).length = d + 7 ∧ (Fits d b → fmtEFx d b = fmtE d b) := by
-  refine ⟨?_, fmtEFx_of_fits d b hd⟩
-  rw [fmtEFx_length d b hd]
-  unfold numlen numlenBase expdigits; omega
-
-/-- the width hypothesis of `ascii_slicing` holds unconditionally for the patched writer (`fits_iff_width` without
-`Fits`) -/
-theorem width_fixed (d b : Nat) (hd : 1 ≤ d) : (fmtEFx d b).length = numlen d := fmtEFx_length d b hd
-
-/-- **field_roundtrip for the patched writer**: `float(numform(x))` is the printed decimal `decOfFx d b` — the decimal
-with `d` digits after the point, with `d - 1` digits for a negative value with a three-digit exponent (`Wide`) -/
-theorem field_roundtrip_fixed (d b : Nat) (hd : 1 ≤ d) :
-    pyFloat? (fmtEFx d b) = some (decOfFx d b) ∧
-      (Wide d b = false → decOfFx d b = decOf d b) ∧ (Wide d b = true → decOfFx d b = decOf (d - 1) b) := by
-  refine ⟨pyFloat_fmtEFx d b hd, ?_, ?_⟩ <;> intro h <;> simp [decOfFx, h]
-
-/-- **to the requested number of digits, patched writer**: the decimal read back differs from the exact value of the
-double by at most half a unit of the last printed digit — the `d`-th after the point, and the `(d-1)`-th for a
-negative value with a three-digit exponent (the one digit the repair gives up for such a value) -/
-theorem ascii_value_half_unit_fixed (d b : Nat) :
-    (Wide d b = false → |Dec10.toRat (decOfFx d b) - bitsVal b| ≤ 1 / 2 * (10 : ℚ) ^ ((sci d b).e10 - (d : Int))) ∧
-    (Wide d b = true →
-      |Dec10.toRat (decOfFx d b) - bitsVal b| ≤ 1 / 2 * (10 : ℚ) ^ ((sci (d - 1) b).e10 - ((d - 1 : Nat) : Int))) :=
-  decOfFx_err d b
-
-/-- **ascii_column_roundtrip_dense for the patched writer**: the values of a dense record or of a string (any segment,
-real or complex, ANY finite doubles — the hypothesis `Fits` of `ascii_column_roundtrip_dense` is gone) come back as
-the printed decimals, in order, and exactly the value lines are consumed -/
-theorem ascii_values_roundtrip_fixed (g : Cfg) (d : Nat) (cplx : Bool) (hg : GoodCfg g d cplx) (hd : 1 ≤ d)
-    (hp : 1 ≤ perline d) (seg : List Entry) (rest : List (List Char)) :
-    ∃ blk, getBlock g (segDs cplx seg).length (valLinesFx d (segDs cplx seg) ++ rest) = (blk, rest) ∧
-      readVals g blk (segDs cplx seg).length = some (seg.map (aEntryFx d cplx)) :=
-  readVals_valLinesFx g d cplx hg hd hp seg rest
-
-/-- **file_roundtrip_ascii for the patched writer.**  For every non-empty list of matrices (each with its resolved
-layout) written with `d` digits, `1 ≤ d ≤ 73`, holding ANY finite doubles: `op4.load` on the text the patched writer
-produces (`loadAscii`, the unchanged reader model) returns exactly one `ADec` per matrix, in file order, carrying the
-written name field, rows (negated for bigmat), columns, form, type, the announced `perline`/`numlen`, and puts that
-rebuild (`applyPutsA`) a matrix related entry by entry (`Op4AFx.ReadOf`, see `ascii_entry_spec_fixed`) to the columns
-`decCol`.  Hypotheses: those of `file_roundtrip_ascii` (`WfA`: columns of `rows` entries, sizes that fit the
-8-character fields, a valid name; nonbigmat only below 65536 rows) WITHOUT "every written value fits its field" — the
-condition of finding F3 is gone.  (The proof is the chain of `file_roundtrip_ascii` re-checked with the three facts
-about the formatter replaced by `fmtEFx_length` / `pyFloat_fmtEFx` / `fmtEFx_fieldChar`: Lemmas/Op4FixedChain{A,B,C}.) -/
-theorem file_roundtrip_ascii_fixed (d : Nat) (hd : 1 ≤ d) (hd' : d ≤ 73) (ms : List (Layout × Mat)) (hne : ms ≠ [])
-    (hok : ∀ p ∈ ms, WfA p.2 ∧ (p.1 = .nonbigmat → p.2.rows < rows4bigmat)) :
-    ∃ ds, loadAscii (encFileAsciiFx d ms) = some ds ∧ List.Forall₂ (Op4AFx.ADecOf d) ms ds := by
-  have hp : 1 ≤ perline d := by
-    unfold perline numlen numlenBase expdigits lineWidth
-    exact (Nat.le_div_iff_mul_le (by omega)).2 (by omega)
-  exact Op4AFx.loadAscii_enc d hd hp ms hne fun p hp' =>
-    ⟨⟨(hok p hp').1.cols_len, (hok p hp').1.rows_lt, (hok p hp').1.ncols_lt, (hok p hp').1.form_lt,
-      (hok p hp').1.name_ident, (hok p hp').1.name_len⟩, (hok p hp').2, fun _ _ _ _ _ _ => trivial⟩
-
-/-- the printed zero, patched writer -/
-theorem decOfFx_zero (d b : Nat) (h : isZeroD b = true) : (decOfFx d b).man = 0 := by
-  unfold decOfFx
-  split
-  · exact decOf_zero (d - 1) b h
-  · exact decOf_zero d b h
-
-/-- what `Op4AFx.ReadOf` means entry by entry (`ascii_entry_spec` for the patched writer): a non-zero written element
-`x` reads back as exactly the printed decimal(s) `Op4AFx.aEntry d cplx x = (decOfFx d re, decOfFx d im)` — see
-`field_roundtrip_fixed` / `ascii_value_half_unit_fixed` for what `decOfFx` is — and a zero element as zero -/
-theorem ascii_entry_spec_fixed (d : Nat) (lay : Layout) (cplx : Bool) (col : List Entry) (colA : List AEntry)
-    (h : List.Forall₂ (Op4AFx.ReadOf d cplx) (decCol lay cplx col) colA) (i : Nat) (x : Entry) (hx : col[i]? = some x) :
-    ∃ y : AEntry, colA[i]? = some y ∧
-      (x.isZero cplx = false → y = (decOfFx d x.1, if cplx then decOfFx d x.2 else Dec10.zero)) ∧
-      (x.isZero cplx = true → y.1.man = 0 ∧ y.2.man = 0) := by
-  obtain ⟨yb, hyb, hnz, hz⟩ := decCol_entry lay cplx col i x hx
-  obtain ⟨y, hy, hrel⟩ := forall₂_getElem? h i yb hyb
-  refine ⟨y, hy, ?_, ?_⟩
-  · intro hxz
-    have hyb' := hnz hxz
-    rcases hrel with hr | ⟨hr, _⟩
-    · rw [hr, hyb', Op4AFx.aEntry_normE]; rfl
-    · exfalso
-      have : (normE cplx x).isZero cplx = true := by rw [← hyb', hr]; exact isZero_zero cplx
-      rw [isZero_normE] at this
-      rw [hxz] at this; cases this
-  · intro hxz
-    have hzz := hz hxz
-    rcases hrel with hr | ⟨_, hr⟩
-    · rw [hr]
-      unfold Op4AFx.aEntry
-      cases cplx
-      · simp only [Entry.isZero, Bool.false_eq_true, if_false] at hzz
-        exact ⟨decOfFx_zero d _ hzz, rfl⟩
-      · simp only [Entry.isZero, if_true, Bool.and_eq_true] at hzz
-        exact ⟨decOfFx_zero d _ hzz.1, decOfFx_zero d _ hzz.2⟩
-    · rw [hr]; exact ⟨rfl, rfl⟩
-
-/-- non-vacuity of `file_roundtrip_ascii_fixed`: the matrix of finding F3 (`[[-2.5e-120, 1.0]]`) satisfies the
-hypotheses, and its first value is one the present writer cannot write -/
-example :
-    let m : Mat := { name := [97], form := 2, cplx := false, rows := 1,
-                     cols := [[(0xA719D28F47B4D525, 0)], [(0x3FF0000000000000, 0)]] }
-    isIdent m.name = true ∧ Wide 16 0xA719D28F47B4D525 = true ∧ (sci 16 0xA719D28F47B4D525).e10 = -120 := by
-  decide +kernel
-
-/-- non-vacuity, F3: `-2.5e-120` (`ascii_overflow_example`) is `Wide` with 16 digits, and is printed with 15 -/
-example :
-    Wide 16 0xA719D28F47B4D525 = true ∧ Wide 16 0x2719D28F47B4D525 = false ∧
-      (fmtEFx 3 0xA719D28F47B4D525).length = 10 ∧ fmtEFx 3 0xA719D28F47B4D525 = " -2.50E-120".toList.drop 1 ∧
-      decOfFx 3 0xA719D28F47B4D525 = { neg := true, man := 250, exp := -122 } := by
-  decide +kernel
 
 end PyYetiVerif.C04
